@@ -38,7 +38,10 @@ Matching(tb) == {s \in Sids : tb[s] = "match"}
 RECURSIVE SortedSeq(_)
 SortedSeq(S) == IF S = {} THEN <<>> ELSE LET m == CHOOSE x \in S : \A y \in S : x <= y IN <<m>> \o SortedSeq(S \ {m})
 \* the statement: matching rows with id > last, ascending, at most n+1 of them
-Select(tb, last, n) == LET all == SortedSeq({s \in Matching(tb) : s > last})
+\* (in mode "sizes" the matching rows are 1..N, so the sorted sequence is written down directly)
+Select(tb, last, n) == LET all == IF Mode = "sizes"
+                                  THEN LET top == Cardinality(Matching(tb)) IN [i \in 1..(IF top > last THEN top - last ELSE 0) |-> last + i]
+                                  ELSE SortedSeq({s \in Matching(tb) : s > last})
                        IN IF Len(all) > n + 1 THEN SubSeq(all, 1, n + 1) ELSE all
 \* GetRelationTuples: drop the extra row; the token is the last returned id iff there was an extra row
 PageOf(tb, last, n) == LET res == Select(tb, last, n)
@@ -66,13 +69,15 @@ Delete(s) ==
   /\ UNCHANGED <<size, token, pages, finished, lastTok>>
 
 \* Mode "sizes": tables of N matching rows for N around the page-size boundaries
-SizesN == {0, 1, 2, 3, 6, 7, 8, 14, 99, 100, 101, 199, 200, 201}
-SizesP == {1, 2, 3, 7, 100}
+SizesN == {0, 1, 2, 3, 6, 7, 8, 14, 99, 100, 101, 199, 200, 201, 1001, 1002, 1500, 2001}
+SizesP == {1, 2, 3, 7, 100, 1000, 1001, 2000}
 Init ==
   /\ table \in (CASE Mode = "small" -> [Sids -> {"absent", "match", "other"}]
                   [] Mode = "sizes" -> {[s \in Sids |-> IF s <= n THEN "match" ELSE "absent"] : n \in {x \in SizesN : x <= MaxSid}}
                   [] OTHER -> {[s \in Sids |-> "absent"]})
   /\ size \in (CASE Mode = "small" -> 1..3 [] Mode = "sizes" -> SizesP [] OTHER -> {1})
+  \* large tables only with large pages (and the other way round), to keep the number of fetches small
+  /\ (Mode = "sizes" => (Cardinality(Matching(table)) > 201 <=> size >= 1000))
   /\ token = 0 /\ pages = <<>> /\ finished = FALSE /\ writes = 0 /\ lastTok = 0
   /\ stable = Matching(table)
   /\ hist = <<>> /\ steps = 0
